@@ -73,25 +73,25 @@ def parseRel (s : String) : Option (String × String) :=
 
 /-- the `default:` arm of postgresType: the first enum or composite type of that schema-qualified name,
 in catalog order -/
-def pgFallbackTypes (env : TypeEnv) (relSchema relName : String) (notNull : Bool) :
+def pgFallbackTypes (defaultSchema : String) (rename : List (String × String)) (relSchema relName : String) (notNull : Bool) :
     List (String × List TypeDecl) → Option String
   | [] => none
   | (sname, tys) :: rest =>
-    if sname == "pg_catalog" then pgFallbackTypes env relSchema relName notNull rest
+    if sname == "pg_catalog" then pgFallbackTypes defaultSchema rename relSchema relName notNull rest
     else
       let rec go : List TypeDecl → Option String
         | [] => none
         | .enum n :: more =>
           if relName == n && relSchema == sname then
-            some (if sname == env.defaultSchema then structName env.rename n
-                  else structName env.rename (sname ++ "_" ++ n))
+            some (if sname == defaultSchema then structName rename n
+                  else structName rename (sname ++ "_" ++ n))
           else go more
         | .composite n :: more =>
           if relName == n && relSchema == sname then some (if notNull then "string" else "sql.NullString")
           else go more
       match go tys with
       | some r => some r
-      | none => pgFallbackTypes env relSchema relName notNull rest
+      | none => pgFallbackTypes defaultSchema rename relSchema relName notNull rest
 
 def postgresType (env : TypeEnv) (col : Column) : String :=
   let notNull := col.notNull || col.isArray
@@ -102,22 +102,22 @@ def postgresType (env : TypeEnv) (col : Column) : String :=
     | none => "interface{}"
     | some (sc, n) =>
       let sc := if sc == "" then env.defaultSchema else sc
-      (pgFallbackTypes env sc n notNull env.schemas).getD "interface{}"
+      (pgFallbackTypes env.defaultSchema env.rename sc n notNull env.schemas).getD "interface{}"
 
-def mysqlFallback (env : TypeEnv) (dt : String) : List (String × List TypeDecl) → Option String
+def mysqlFallback (defaultSchema : String) (rename : List (String × String)) (dt : String) : List (String × List TypeDecl) → Option String
   | [] => none
   | (sname, tys) :: rest =>
     let rec go : List TypeDecl → Option String
       | [] => none
       | .enum n :: more =>
         if n == dt then
-          some (if sname == env.defaultSchema then structName env.rename n
-                else structName env.rename (sname ++ "_" ++ n))
+          some (if sname == defaultSchema then structName rename n
+                else structName rename (sname ++ "_" ++ n))
         else go more
       | .composite _ :: more => go more
     match go tys with
     | some r => some r
-    | none => mysqlFallback env dt rest
+    | none => mysqlFallback defaultSchema rename dt rest
 
 def mysqlType (env : TypeEnv) (col : Column) : String :=
   let notNull := col.notNull || col.isArray
@@ -129,7 +129,7 @@ def mysqlType (env : TypeEnv) (col : Column) : String :=
   | none =>
     match lookupArm Gen.mysqlTypeArms col.dataType with
     | some r => pick r notNull
-    | none => (mysqlFallback env col.dataType env.schemas).getD "interface{}"
+    | none => (mysqlFallback env.defaultSchema env.rename col.dataType env.schemas).getD "interface{}"
 
 def dbTypeOverride (ovs : List Override) (columnType : String) (notNull : Bool) : Option String :=
   (ovs.find? (fun o => o.goTypeName != "" && o.dbType != "" && o.dbType == columnType && o.nullable != notNull)).map (·.goTypeName)
